@@ -18,6 +18,25 @@ ENGINES = {
     },
 }
 
+H3_STUB = {
+    "real": ["server (partition, replicator, metadata, fsm, api, cursors, groups, activity, failover, propagation; instrumented mechanically)",
+             "server/commitlog (instrumented)", "server/protocol", "server/encryption", "casbin", "raft-boltdb (log store of the Raft stub)", "file system of the sandbox kernel"],
+    "stub": ["NATS server + nats.go client: simulated bus with NATS subject, queue-group and per-connection FIFO semantics (fakes/natsgo)",
+             "hashicorp/raft + nats-on-a-log: ordered-commit stub with seeded apply lag, leadership changes, snapshots (fakes/raft) - Raft itself is not under test",
+             "nuid: deterministic counter", "gRPC transport, TLS, signal delivery: bypassed (handlers called in-process)",
+             "goroutine scheduling (simrt, seeded)", "clock and timers (testing/synctest fake clock)"],
+}
+
+ENGINES["h3"] = {
+    "package": "server",
+    "harness": "server",
+    "instrument": ["server", "server/commitlog"],
+    "fs": [],
+    "replace": {"github.com/nats-io/nats.go": "natsgo", "github.com/hashicorp/raft": "raft", "github.com/liftbridge-io/nats-on-a-log": "natslog", "github.com/nats-io/nuid": "nuid"},
+    "real_vs_stub": H3_STUB,
+    "kind": "deterministic simulation of 1-4 real liftbridge servers over a simulated NATS bus and a Raft stub in one synctest bubble",
+}
+
 COMMON_ASSUME = [
     "Go runtime and testing/synctest behave as documented",
     "the instrumenter's rewrites preserve semantics up to scheduling (RWMutex writer preference is not reproduced)",
